@@ -33,7 +33,8 @@ class Insert:
     def __init__(self, where, anchor, tags, origin, loop=None):
         self.where = where    # before / after / at_start / loop_end / loop_start
         self.anchor = anchor
-        self.tags = tags
+        self.hint = 'hint' in tags   # a pure proof step: its failure alone makes the property undecided, not violated
+        self.tags = [t for t in tags if t != 'hint']
         self.lines = []
         self.origin = origin
         self.loop = loop
